@@ -149,9 +149,7 @@ def _copy(m):
 
 def real_oneof(fd):
     o = fd.containing_oneof
-    if o is None:
-        return None
-    if len(o.fields) == 1 and o.name == '_' + o.fields[0].name:
+    if o is None or probelib._synthetic(o):
         return None
     return o.name
 
